@@ -101,6 +101,8 @@ struct Shared {
     received: StdMutex<Vec<(usize, u64)>>, // (receiver actor index, id) in order of receipt
     live_tx: AtomicUsize,
     live_rx: AtomicUsize,
+    disc_seen: AtomicUsize,
+    rx_dropped_early: AtomicUsize,
     bad: StdMutex<Vec<(String, String)>>,
     // endpoints parked here by actors that finished without dropping them
     keep_tx: StdMutex<Vec<Tx>>,
@@ -138,6 +140,8 @@ pub fn build(ctl: &'static Ctrl, params: &Value) -> Instance {
         received: StdMutex::new(vec![]),
         live_tx: AtomicUsize::new(0),
         live_rx: AtomicUsize::new(0),
+        disc_seen: AtomicUsize::new(0),
+        rx_dropped_early: AtomicUsize::new(0),
         bad: StdMutex::new(vec![]),
         keep_tx: StdMutex::new(vec![]),
         keep_rx: StdMutex::new(vec![]),
@@ -229,6 +233,7 @@ pub fn build(ctl: &'static Ctrl, params: &Value) -> Instance {
             if prog.iter().any(|p| p == "recv") {
                 blocking_rx.push(name.clone());
             }
+            let single_rx = nreceivers == 1;
             actors.push(actor(&name, is_co, move || {
                 let mut bag = RxBag { v: Some(mine), sh: sh2.clone() };
                 let mut last_from: std::collections::HashMap<u64, u64> = Default::default();
@@ -251,6 +256,7 @@ pub fn build(ctl: &'static Ctrl, params: &Value) -> Instance {
                         }
                         "rdrop" => {
                             sh2.live_rx.fetch_sub(1, SeqCst);
+                            sh2.rx_dropped_early.fetch_add(1, SeqCst);
                             drop(bag.v.take());
                             continue;
                         }
@@ -272,9 +278,12 @@ pub fn build(ctl: &'static Ctrl, params: &Value) -> Instance {
                             let sent = sh2.sent_ok.load(SeqCst);
                             if sh2.live_tx.load(SeqCst) > 0 {
                                 sh2.bad.lock().unwrap().push(("false_disconnect".into(), format!("{nm}: Disconnected while {} sender handle(s) are alive", sh2.live_tx.load(SeqCst))));
-                            } else if got < sent {
+                            } else if got < sent && single_rx {
                                 sh2.bad.lock().unwrap().push(("disconnect_before_drain".into(), format!("{nm}: Disconnected after {got} of {sent} successfully sent values were received")));
                             }
+                            // with several receivers a value may be claimed by another receiver that is
+                            // between its permit and its pop: judged at the end of the execution
+                            sh2.disc_seen.fetch_add(1, SeqCst);
                         }
                         R::Empty | R::Timeout => {}
                     }
@@ -292,9 +301,6 @@ pub fn build(ctl: &'static Ctrl, params: &Value) -> Instance {
     if kind == "spsc" {
         cats.push("spscsub");
         kernel_cats.push("spscsub");
-    }
-    if kind == "mpmc" {
-        cats.push("sem");
     }
     let opts = ExecOpts { cats, kernel_cats, victims: victims.clone(), vclock: true, offer_tick: true, ..Default::default() };
     let sh3 = sh.clone();
@@ -328,6 +334,12 @@ pub fn build(ctl: &'static Ctrl, params: &Value) -> Instance {
             }
             match &out.end {
                 End::Finished => {
+                    // Disconnected promises that everything sent has been drained: by the end of the
+                    // execution every successfully sent value must then have reached a receiver
+                    // (unless a receiver endpoint was dropped and took queued values with it)
+                    if sh3.disc_seen.load(SeqCst) > 0 && sh3.rx_dropped_early.load(SeqCst) == 0 && rec.len() < sent.len() {
+                        v.push(Violation { kind: "disconnect_before_drain".into(), detail: format!("a receiver was told Disconnected but only {} of {} successfully sent values were ever received", rec.len(), sent.len()) });
+                    }
                     for (i, p) in out.panicked.iter().enumerate() {
                         if *p && !victims.contains(&out.names[i]) {
                             v.push(Violation { kind: "panic".into(), detail: format!("actor {} panicked", out.names[i]) });
